@@ -1,6 +1,7 @@
 mod c01;
 mod c02;
 mod c03;
+mod c04;
 mod c07;
 mod c09;
 mod c12;
@@ -30,6 +31,7 @@ fn main() {
         "C01" => c01::run(),
         "C02" => c02::run(),
         "C03" => c03::run(),
+        "C04" => c04::run(),
         "C07" => c07::run("C07"),
         "C08" => c07::run("C08"),
         "C09" => c09::run(),
